@@ -2,6 +2,10 @@ import Driver.RW
 import EoVerif.Model.GenExec
 import EoVerif.Spec.Protocol
 import EoVerif.Lemmas.RoundTripDefs
+import EoVerif.Spec.WellFormed
+import EoVerif.Spec.WellFormedTypes
+import EoVerif.Spec.WellFormedTyped
+import EoVerif.Props.C02
 /-! Driver commands for the generator model (C01–C03, C15–C19). -/
 namespace Driver
 open EoVerif EoVerif.Gen
@@ -114,6 +118,7 @@ def sanitizeMsg (m : String) : String := String.ofList (m.toList.map (fun c => i
 structure GenState where
   out : Option GenOutput := none
   spec : Option Spec.TSpec := none
+  files : List ProtoFile := []
 
 def handleGen (gs : GenState) : List String → GenState × String
   | "load" :: ts =>
@@ -121,8 +126,14 @@ def handleGen (gs : GenState) : List String → GenState × String
     | none => (gs, "bad-op")
     | some files =>
       match compile files with
-      | .error m => ({ out := none, spec := Spec.elabSpec files }, "err " ++ sanitizeMsg m)
-      | .ok o => ({ out := some o, spec := Spec.elabSpec files }, s!"ok {o.classes.length}" ++ String.join (o.classes.map (fun c => " " ++ c.name)))
+      | .error m => ({ out := none, spec := Spec.elabSpec files, files := files }, "err " ++ sanitizeMsg m)
+      | .ok o => ({ out := some o, spec := Spec.elabSpec files, files := files }, s!"ok {o.classes.length}" ++ String.join (o.classes.map (fun c => " " ++ c.name)))
+  | ["wf"] =>
+    -- the verdicts of the declarative checkers the C17 theorems are stated over, and of the domain of `ser_conforms`
+    let roots := gs.files.map (·.root)
+    let ctxOk := gs.files.all (fun f => (f.root.findall "struct" ++ f.root.findall "packet").all Spec.wfClass)
+    (gs, s!"ok context {b01 ctxOk} decls {b01 (Spec.declsWF roots)} packets {b01 (Spec.packetsWF (gs.files.map (fun f => (f.dir, f.root))))}" ++
+         s!" typed {b01 (Spec.typedSpec roots)} fragment {b01 (Fragment gs.files)}")
   | ["files"] =>
     match gs.out with
     | none => (gs, "no-spec")
